@@ -1921,7 +1921,8 @@ class C08(HistProp):
                 "decompression, the not-compressed flag, and every offset and EDNS field equal to a fresh parse; (v) the same for histories "
                 "that also delete non-OPT records and set their TTLs, addresses and owner names through a cursor placed with set_offset + recompute "
                 "(C08_histories_with_cursor, every step applicable where applied), and every such history runs to the end with no Panic outcome, "
-                "a step that reports an error changing nothing (C08_histories_with_cursor_total); plus frame/shape lemmas "
+                "a step that reports an error changing nothing (C08_histories_with_cursor_total); the same from any freshly parsed response "
+                "whose first operation is an insertion or a recompute (C08_histories_from_parse_with_cursor, ..._total); plus frame/shape lemmas "
                 "(C08_insert_shape, C08_header_setters_keep_view); with failing steps tolerated every such history runs to the end without a "
                 "Panic outcome (C08_histories_total). Operations that move the cursor (TTL / address / name setters, deletion, "
                 "cursor decompression), insertion of OPT records or of a question, and histories on synthesised objects are decided each run "
@@ -2096,16 +2097,19 @@ class C11(HistProp):
             "read the tombstone's offsets; the yielded sequence must equal the abstract walk (restart from the section start after a "
             "deletion), the final section must hold exactly the survivors in order with a matching count, an emptied section reads as absent. "
             "Non-trivial: at least one deletion; distinct = distinct (packet, section, subset).")
-    strength = ("proved (unbounded, abstract machine): for every section and every set of records chosen for deletion the walk with restart-after-"
-                "delete terminates within (|D|+1)(n+1) yields, never yields a deleted record again, yields every survivor at least once and "
-                "leaves exactly the survivors in order (C11_walk_terminates, C11_walk_exact). Proved for one step of the concrete cursor code "
-                "on a decompressed object: from any state satisfying the C08 invariant a successful delete through a cursor on a non-OPT "
-                "record of any record section removes exactly that record, leaves the cursor void and keeps the invariant "
-                "(C11_delete_removes_the_record_under_the_cursor), section offsets are where the first remaining record starts and an emptied "
-                "section is absent (C11_section_offsets), a second delete reports a void record and changes nothing (C11_second_delete_void), "
-                "the delete itself cannot fail (C11_delete_succeeds). "
-                "PARTIAL: that the walk of the concrete cursor code (next / restart after a delete, compressed packets, the question "
-                "section) refines the abstract machine is decided each run by the correspondence over all subsets of small sections.")
+    strength = ("proved (unbounded): (i) the abstract machine: for every section and every set of records chosen for deletion the walk with "
+                "restart-after-delete terminates within (|D|+1)(n+1) yields, never yields a deleted record again, yields every survivor at "
+                "least once and leaves exactly the survivors in order (C11_walk_terminates, C11_walk_exact); (ii) the concrete cursor code "
+                "on a decompressed object refines it (Proofs/WalkInv.v): a cursor without offset restarts at the first record of its "
+                "section with the current count or ends (C11_cursor_restarts_from_section_start), a cursor on a record advances or ends "
+                "(C11_cursor_advances), a delete removes exactly the record under the cursor, voids the cursor, keeps the C08 invariant and "
+                "cannot fail (C11_delete_removes_the_record_under_the_cursor, C11_delete_succeeds), a second delete reports a void record "
+                "(C11_second_delete_void), an emptied section is absent (C11_section_offsets); composed: the loop next / decide / delete over "
+                "a record section returns what the machine returns, other sections untouched (C11_concrete_walk_refines_machine), so from a "
+                "fresh cursor it terminates with exactly the survivors, each yielded (C11_concrete_walk_exact), for every decision that "
+                "depends only on the record under the cursor and spares OPT (such decisions exist: C11_delete_everything_but_opt). "
+                "PARTIAL: the OPT-skipping variant of next(), walks that start on a compressed object and the question section are decided "
+                "each run by the correspondence over all subsets of small sections.")
 
     def gen(self, rng, tier):
         import itertools
